@@ -197,28 +197,28 @@ pub enum VCtor {
 #[derive(Clone, Debug, PartialEq, Serialize, Deserialize)]
 pub enum SOp {
     Push(char),
-    PushStr(String),
+    PushStr(#[serde(with = "compact_text")] String),
     Pop,
     Insert(Pos, char),
-    InsertStr(Pos, String),
+    InsertStr(Pos, #[serde(with = "compact_text")] String),
     Remove(Pos),
     Truncate(Pos),
     Clear,
     Retain(Pred),
     Drain(Rng2, Consume),
-    ReplaceRange(Rng2, String),
+    ReplaceRange(Rng2, #[serde(with = "compact_text")] String),
     SplitOff(Pos),
-    ExtendChars(String),
-    ExtendStrs(Vec<String>),
+    ExtendChars(#[serde(with = "compact_text")] String),
+    ExtendStrs(#[serde(with = "compact_texts")] Vec<String>),
     CloneCmp,
-    Format(u32, String),
+    Format(u32, #[serde(with = "compact_text")] String),
     IntoBumpStr,
     Recreate(SCtor),
     Reserve(Pos),
     ReserveExact(Pos),
     ShrinkToFit,
     Index(Rng2),
-    AddStr(String),
+    AddStr(#[serde(with = "compact_text")] String),
     IntoBytesRoundTrip,
     CmpHash,
     /// 0: as_mut_ptr/len/capacity + from_raw_parts_in; 1: into_bytes + from_utf8_unchecked;
@@ -230,12 +230,12 @@ pub enum SOp {
 pub enum SCtor {
     New,
     WithCap(usize),
-    FromStr(String),
-    FromIter(String),
+    FromStr(#[serde(with = "compact_text")] String),
+    FromIter(#[serde(with = "compact_text")] String),
     FromUtf8(Vec<u8>),
     FromUtf8Lossy(Vec<u8>),
     FromUtf16(Vec<u16>),
-    CollectIn(String),
+    CollectIn(#[serde(with = "compact_text")] String),
 }
 
 #[derive(Clone, Debug, PartialEq, Serialize, Deserialize)]
@@ -289,7 +289,7 @@ pub enum BVal {
     Big(u32),
     Zt,
     Arr4(u32),
-    Str(String),
+    Str(#[serde(with = "compact_text")] String),
     SliceTr { n: usize, tag0: u32 },
     AnyTr(u32),
     AnyU32(u32),
@@ -349,4 +349,61 @@ pub struct W2Script {
     pub placement: Placement,
     /// what happens at the end: true = reset the arena before dropping it
     pub reset_at_end: bool,
+}
+
+/// Replay files keep megabyte texts readable (and shrinkable): a long text that is an exact
+/// repetition of a short unit is written as `{"unit": "...", "times": n}`; anything else stays a
+/// plain JSON string. Both forms are accepted when reading.
+pub mod compact_text {
+    use serde::{Deserialize, Deserializer, Serialize, Serializer};
+
+    #[derive(Serialize, Deserialize)]
+    #[serde(untagged)]
+    pub enum Repr {
+        Plain(String),
+        Rep { unit: String, times: usize },
+    }
+
+    pub fn to_repr(s: &str) -> Repr {
+        if s.len() > 2048 {
+            for ulen in 1..=32usize {
+                if s.len() % ulen == 0 && s.is_char_boundary(ulen) {
+                    let unit = &s.as_bytes()[..ulen];
+                    if s.as_bytes().chunks(ulen).all(|c| c == unit) {
+                        return Repr::Rep { unit: s[..ulen].to_string(), times: s.len() / ulen };
+                    }
+                }
+            }
+        }
+        Repr::Plain(s.to_string())
+    }
+
+    pub fn from_repr(r: Repr) -> String {
+        match r {
+            Repr::Plain(s) => s,
+            // a replay file is trusted input, but keep an absurd count from eating the machine
+            Repr::Rep { unit, times } => unit.repeat(times.min((64 << 20) / unit.len().max(1))),
+        }
+    }
+
+    pub fn serialize<S: Serializer>(s: &String, ser: S) -> Result<S::Ok, S::Error> {
+        to_repr(s).serialize(ser)
+    }
+
+    pub fn deserialize<'de, D: Deserializer<'de>>(d: D) -> Result<String, D::Error> {
+        Ok(from_repr(Repr::deserialize(d)?))
+    }
+}
+
+pub mod compact_texts {
+    use super::compact_text::{from_repr, to_repr, Repr};
+    use serde::{Deserialize, Deserializer, Serialize, Serializer};
+
+    pub fn serialize<S: Serializer>(v: &Vec<String>, ser: S) -> Result<S::Ok, S::Error> {
+        v.iter().map(|s| to_repr(s)).collect::<Vec<Repr>>().serialize(ser)
+    }
+
+    pub fn deserialize<'de, D: Deserializer<'de>>(d: D) -> Result<Vec<String>, D::Error> {
+        Ok(Vec::<Repr>::deserialize(d)?.into_iter().map(from_repr).collect())
+    }
 }
